@@ -26,6 +26,13 @@ Source: `include/dmlc/threadediter.h`.  Conventions of DESIGN.md section 2 "Conc
 * Ghost history: `produced delivered pass pidx srcEnded thrown allocated maxLent lost freed rewCalls
   bfPosted bfPass ret`.  `produced`/`delivered`/`pidx`/`srcEnded` are the history of the *current pass* (reset
   when the pass is abandoned and its queued items are dropped: rewind, failure during a pending rewind, Destroy).
+* DCHECKs are not transitions: they are compiled out in the configuration the correspondence runs in.  The one
+  that matters, `DCHECK(producer_sig_ != kDestroy)` at the top of the catch block, is finding C09-F2 (it throws out
+  of the producer thread when a failure races with Destroy); `Gen.TIter.catchDcheck` records whether the source still
+  has it, `Props.C09.C09_fix2_present` requires that it does not, and the harness runs the DCHECK-live
+  instantiation of the header against the oracles.
+* A cell the producer holds when its callback throws is leaked by the C++ (`cell` is a local raw pointer): ghost
+  list `lost`.
 * `rk` = "BeforeFirst re-checks the recorded exception once it holds `mutex_`" (`Gen.TIter.bfRecheck`, read
   from the source: false for the pinned code, true with fixes/C09-1.diff).
 -/
